@@ -330,8 +330,8 @@ def corr_selector(hbin, wd, tier, seed, sizes=((16, 8), (32, 40))):
 def check_C02(tier, seed, replay=None):
     # the hints oracle (a storage that returns only what each Select asked for) on selector pairs:
     # a selector must ask for its own range even when the same matchers occur twice in a query
-    return ref_family_check("C02", tier, seed, [("ref", "selector", 3000), ("ref", "selpair", 1500), ("hints", "selpair", 800)],
-                            [("ref", "selector", 60000), ("ref", "selpair", 30000), ("hints", "selpair", 20000)], corr=corr_selector)
+    return ref_family_check("C02", tier, seed, [("ref", "selector", 3000), ("ref", "selpair", 1500), ("hints", "selpair", 800), ("hints", "subpairs", 500)],
+                            [("ref", "selector", 60000), ("ref", "selpair", 30000), ("hints", "selpair", 20000), ("hints", "subpairs", 10000)], corr=corr_selector)
 
 
 def corr_range(hbin, wd, tier, seed):
@@ -441,15 +441,15 @@ def corr_core(prop, parts):
 
 def check_C16(tier, seed, replay=None):
     corr = _corr_generic("hintcases", "C16", "Hints.eng_selects vs the selects recorded by the instrumented storage (no optimizers)", 150, 1500)
-    return ref_family_check("C16", tier, seed, [("hints", "", 1500), ("hints", "range", 500), ("hints", "func", 500), ("hints", "pairs", 1200)],
-                            [("hints", "", 30000), ("hints", "range", 10000), ("hints", "func", 10000), ("hints", "deep", 10000), ("hints", "pairs", 40000)], corr=corr)
+    return ref_family_check("C16", tier, seed, [("hints", "", 1500), ("hints", "range", 500), ("hints", "func", 500), ("hints", "pairs", 1000), ("hints", "subpairs", 800)],
+                            [("hints", "", 30000), ("hints", "range", 10000), ("hints", "func", 10000), ("hints", "deep", 10000), ("hints", "pairs", 40000), ("hints", "subpairs", 20000)], corr=corr)
 
 
 def check_C09(tier, seed, replay=None):
     corr = _corr_generic("optcases", "C09", "Opt.opt_sort / opt_merge / opt_propagate vs the ASTs produced by the real optimizers "
                          "(each alone and the default list), compared up to matcher order", 120, 1200)
-    return ref_family_check("C09", tier, seed, [("opt", "pairs", 4000), ("opt", "", 1200), ("opt", "bin", 800)],
-                            [("opt", "pairs", 150000), ("opt", "", 20000), ("opt", "bin", 20000), ("opt", "deep", 10000)], corr=corr)
+    return ref_family_check("C09", tier, seed, [("opt", "pairs", 3000), ("opt", "subpairs", 1500), ("opt", "", 1200), ("opt", "bin", 800)],
+                            [("opt", "pairs", 150000), ("opt", "subpairs", 40000), ("opt", "", 20000), ("opt", "bin", 20000), ("opt", "deep", 10000)], corr=corr)
 
 
 def check_C10(tier, seed, replay=None):
@@ -480,8 +480,8 @@ def check_C19(tier, seed, replay=None):
 
 
 def check_C01(tier, seed, replay=None):
-    return ref_family_check("C01", tier, seed, [("", 5000), ("deep", 2000), ("noties", 1500), ("epoch:", 800)],
-                            [("", 100000), ("deep", 40000), ("noties", 30000), ("func", 20000), ("bin", 20000), ("agg", 20000), ("range", 20000), ("epoch:", 20000), ("epoch:deep", 10000)],
+    return ref_family_check("C01", tier, seed, [("", 5000), ("deep", 2000), ("noties", 1500), ("epoch:", 800), ("subpairs", 600)],
+                            [("", 100000), ("deep", 40000), ("noties", 30000), ("func", 20000), ("bin", 20000), ("agg", 20000), ("range", 20000), ("epoch:", 20000), ("epoch:deep", 10000), ("subpairs", 15000)],
                             corr=corr_core("C01", ("sel", "bin", "func", "agg", "tree")))
 
 
